@@ -201,6 +201,22 @@ func c11Tail(n int, mut string) []byte {
 			cur >>= 8
 		}
 	}
+	if parts[0] == "wrap" && len(cells) > 0 {
+		// a cell whose KeyValue length is within a few bytes of 2^32 and whose inner lengths are
+		// consistent with it: kvLen+4 wraps around in uint32
+		ci, _ := strconv.Atoi(parts[1])
+		if ci < 0 || ci >= len(cells) {
+			ci = len(cells) - 1
+		}
+		k, _ := strconv.Atoi(parts[2])
+		kv := uint32(0xFFFFFFFF) - uint32(k)
+		cell := make([]byte, 24)
+		binary.BigEndian.PutUint32(cell[0:], kv)
+		binary.BigEndian.PutUint32(cell[4:], 12)
+		binary.BigEndian.PutUint32(cell[8:], kv-20)
+		cell[23] = 4
+		cells[ci] = cell
+	}
 	var tail []byte
 	for _, c := range cells {
 		tail = append(tail, c...)
